@@ -260,7 +260,8 @@ PROPERTIES = {
                                              "sync.Once is modelled sequentially"]),
     "C18": dict(mode="G", load_pkgs=["./internal/openapiv3"], pkgpath=MOD + "/internal/openapiv3", test_pkg="./internal/openapiv3", test_pkgname="openapiv3",
                 overlay={"internal/openapiv3/zz_verif_c18.go": "harness/c18/c18_document.go"},
-                harnesses=[dict(func="VerifC18Document", reach=["C18/decided", "C18/kf-collision"], quick=dict(budget=300, parts=4), thorough=dict(budget=900, parts=8))],
+                harnesses=[dict(func="VerifC18Document", reach=["C18/decided", "C18/kf-collision"], quick=dict(budget=300, parts=4), thorough=dict(budget=900, parts=8)),
+                           dict(func="VerifC18OneDocumentPerService", reach=["C18/per-service/decided"], quick=dict(budget=100), thorough=dict(budget=300))],
                 bounds_text={"quick": "one service with 1-2 RPCs; request with path variables in 3 template shapes (0..2 variables; second bound to an int32/string field with or without the optional keyword), 5 verbs; response graph with a nested type that is used by a field or not, a type reachable only through that nested type (repeated or not) living in another package under an arbitrary short name ([A-Z][a-z]{0,4}, may coincide with other names), and a recursive type; the document is the in-memory v3.Document the real generator builds with the real libopenapi objects"},
                 assumptions=["only the in-memory document is examined: YAML/JSON rendering (and their equivalence), the format parameter and file naming in cmd/protoc-gen-openapiv3 are outside this check",
                              "libopenapi's high-level model code (orderedmap, SchemaProxy, DynamicValue) is executed from its real source by the engine"]),
